@@ -324,9 +324,9 @@ def encDictFold : DAcc → List (Val × Val) → Out DAcc
   | acc, [] => .ok acc
   | acc, (k, v) :: ps => (encDictStep acc k v).bind fun acc' => encDictFold acc' ps
 
-/-- `constructor = type(obj); result = constructor()` (encoding.py:112-113): an OrderedDict stays an OrderedDict -/
-def DAcc.toVal (ordered : Bool) : DAcc → Val
-  | .dict ps => .dict ordered ps
+/-- `result: dict = {}` (encoding.py:108-111): whatever Mapping came in (an OrderedDict too), a plain dict goes out -/
+def DAcc.toVal : DAcc → Val
+  | .dict ps => .dict false ps
   | .list xs => .list xs
 
 variable (henv : HEnv)
@@ -342,8 +342,8 @@ def encode : Val → Out Val
   | .list xs => (encodeL xs).bind fun ys => .ok (.list ys)       -- encoding.py:97-107
   | .tuple xs => (encodeL xs).bind fun ys => .ok (.list ys)
   | .set xs => (encodeL xs).bind fun ys => .ok (.list ys)
-  | .dict ordered ps =>                                          -- encoding.py:110-124
-    (encodeP ps).bind fun qs => (encDictFold (.dict []) qs).bind fun acc => .ok (acc.toVal ordered)
+  | .dict _ ps =>                                                -- encoding.py:106-122 (any Mapping ↦ plain dict)
+    (encodeP ps).bind fun qs => (encDictFold (.dict []) qs).bind fun acc => .ok acc.toVal
   | .path s => .ok (.str s)                                      -- encoding.py:129-131
   | .enum _ n => .ok (.str n)                                    -- encoding.py:139-141
   | .none => .ok .none                                           -- deepcopy fallback, encoding.py:91
